@@ -18,6 +18,7 @@ pub const COUNTERS: &[&str] = &[
     "positions", "spellings_parsed", "spellings_with_file_disambiguation", "spellings_with_rank_disambiguation", "spellings_with_square_disambiguation",
     "spellings_ep", "spellings_castle", "spellings_promotion", "spellings_with_check_mark", "spellings_with_mate_mark",
     "grammar_positions", "grammar_texts", "grammar_must_parse", "grammar_must_reject", "grammar_either", "mutated_texts", "mutated_texts_accepted", "short_strings",
+    "call_order_pairs",
 ];
 
 pub const SAN_ROOTS: &[&str] = &[
@@ -43,6 +44,10 @@ pub const SAN_ROOTS: &[&str] = &[
     "3k4/8/8/8/8/N1N1N3/1N1N4/N1N1K3 w - - 0 1",
     "6k1/8/1N1N4/N3N3/2p5/N3N3/1N1N4/6K1 w - - 0 1",
     "4k3/8/8/1R1R1R2/8/1R1R1R2/8/4K3 w - - 0 1",
+    // ten of a kind
+    "4k3/8/8/8/8/NNNNN3/NNNNN3/4K3 w - - 0 1",
+    "7k/8/8/8/8/RRRRR3/RRRRR3/4K3 w - - 0 1",
+    "3k4/8/8/8/8/1BBBBB2/1BBBBB2/6K1 w - - 0 1",
 ];
 
 fn fail(run: &Run, clause: &str, shape: &str, detail: String, p: &RefPos, text: &str) -> bool {
@@ -242,7 +247,7 @@ fn check_safety(run: &Run, p: &RefPos, b: &Board, legal: &[RMove], texts: &[Stri
     run.add("short_strings", n);
 }
 
-pub const RULE: &str = "positions = SAN-specific roots (queens / rooks / knights / bishops needing file, rank and full-square disambiguation, a pinned rival, castling with check and with mate, en-passant captures, capture- and under-promotions), the curated roots, and their children (quick: children of the SAN roots; thorough: also of all roots), plus the en-passant family without extra man and the ~4350 feature-covering roots (thorough: with children). Per position: (a) every admissible spelling of every legal move (minimal and every fuller correct disambiguation, x on captures, promotion letter, no mark or the correct +/#, optional ' e.p.') must parse to exactly that move; (b) on a subset, EVERY grammar-complete text piece x source(81) x x x dest(all destinations + 2) x promo{-,Q,N} x {-,+} x {-, e.p.} judged by a reference interpreter (fits exactly one and markers right: must parse to it; fits none or several: must be rejected; flawed only in an unvalidated marker: either); (c) the complete 1-edit ball (insert / delete / substitute over a 28-symbol alphabet incl. 2/3/4-byte characters, among them characters whose low byte equals N, x, O, 1, e, Q) of every spelling and all strings of length <= 3 (quick: 2): no panic and Ok(m) implies m legal. distinct_nontrivial = spellings that needed disambiguation, castling, en passant, promotion or a check/mate mark";
+pub const RULE: &str = "positions = SAN-specific roots (queens / rooks / knights / bishops needing file, rank and full-square disambiguation, a pinned rival, castling with check and with mate, en-passant captures, capture- and under-promotions), the curated roots, and their children (quick: children of the SAN roots; thorough: also of all roots), plus the en-passant family without extra man and the ~4350 feature-covering roots (thorough: with children). Per position: (a) every admissible spelling of every legal move (minimal and every fuller correct disambiguation, x on captures, promotion letter, no mark or the correct +/#, optional ' e.p.') must parse to exactly that move; (b) on a subset, EVERY grammar-complete text piece x source(81) x x x dest(all destinations + 2) x promo{-,Q,N} x {-,+} x {-, e.p.} judged by a reference interpreter (fits exactly one and markers right: must parse to it; fits none or several: must be rejected; flawed only in an unvalidated marker: either); (d) call order: for up to 400 (thorough 4000) pairs per truncation of different positions whose hashes agree in the low 32 / high 32 / low 16 / low 24 / xor-folded 32 / high 32 + low 8 / high 16 + low 16 bits, from_san is asked about the first and then, on the same thread, every spelling of every move of the second is judged (a memo keyed by a narrowed hash would answer for the wrong position); (c) the complete 1-edit ball (insert / delete / substitute over a 28-symbol alphabet incl. 2/3/4-byte characters, among them characters whose low byte equals N, x, O, 1, e, Q) of every spelling and all strings of length <= 3 (quick: 2): no panic and Ok(m) implies m legal. distinct_nontrivial = spellings that needed disambiguation, castling, en passant, promotion or a check/mate mark";
 
 fn check_position(run: &Run, p: &RefPos, grammar: bool, short_len: usize) {
     let b = match guard::lib(|| from_scratch(p)) {
@@ -318,6 +323,34 @@ pub fn run(tier: Tier) -> i32 {
             check_position(&run, p, false, if i % 16 == 0 { 1 } else { 0 });
         }
     });
+    // state carried between calls: for pairs of different positions whose hashes agree in a truncation
+    // of the key, ask about the first and then, on the same thread, about the second
+    if !run.has_violation() {
+        let pairs = hash_collision_pairs(tier.pick(400, 4000));
+        run.note("hash_truncation_pairs", json!(pairs.len()));
+        pairs.par_iter().for_each(|(p1, p2, kind)| {
+            if run.has_violation() {
+                return;
+            }
+            let (b1, b2) = match (guard::lib(|| from_scratch(p1)), guard::lib(|| from_scratch(p2))) {
+                (Ok(Ok(a)), Ok(Ok(b))) => (a, b),
+                _ => return,
+            };
+            if let Some(m) = p1.legal_moves().first() {
+                if let Some(t) = spellings(p1, *m).first() {
+                    let _ = parse(&b1, t);
+                }
+            }
+            let before = run.has_violation();
+            let legal = p2.legal_moves();
+            crumb_pos(p2, None);
+            let _ = check_spellings(&run, p2, &b2, &legal);
+            if !before && run.has_violation() {
+                eprintln!("[C12] note: the failing position {} was asked about right after {} (hashes agree in their {kind})", p2.fen(), p1.fen());
+            }
+            run.add("call_order_pairs", 1);
+        });
+    }
     let nt = run.get("spellings_with_file_disambiguation") + run.get("spellings_with_rank_disambiguation") + run.get("spellings_with_square_disambiguation") + run.get("spellings_ep") + run.get("spellings_castle") + run.get("spellings_promotion") + run.get("spellings_with_check_mark") + run.get("spellings_with_mate_mark");
     run.nontrivial.store(nt, Ordering::Relaxed);
     let p0 = san_roots[0];
